@@ -337,12 +337,11 @@ func (s *Stream) WriteSCTP(payload []byte, ppi PayloadProtocolIdentifier) (int, 
 		return 0, nil
 	}
 
-	// the send could fail if the association is blocked for writing (timeout), it will left a hole
+	// the send could fail (the association is blocked for writing and times out, or it is no
+	// longer established because Shutdown/Close ran concurrently), it will left a hole
 	// in the stream sequence number space, so we need to lock the write to avoid concurrent send and decrement
 	// the sequence number in case of failure
-	if s.association.isBlockWrite() {
-		s.writeLock.Lock()
-	}
+	s.writeLock.Lock()
 	useInterleaving := s.association.useInterleaving
 	chunks, unordered := s.packetize(payload, ppi)
 	n := len(payload)
@@ -362,9 +361,7 @@ func (s *Stream) WriteSCTP(payload []byte, ppi PayloadProtocolIdentifier) (int, 
 		s.lock.Unlock()
 		n = 0
 	}
-	if s.association.isBlockWrite() {
-		s.writeLock.Unlock()
-	}
+	s.writeLock.Unlock()
 
 	return n, err
 }
